@@ -148,9 +148,9 @@ func runGap(raw json.RawMessage) (interface{}, error) {
 }
 
 func init() {
-	g1 := wMat{Files: []wFile{{"a-cert.pem", 0, -1}, {"a-key.pem", -1, 0}}}
-	g2 := wMat{Files: []wFile{{"z.pem", 1, 1}, {"a.pem", 2, 2}}}
-	bad := wMat{Files: []wFile{{"a-cert.pem", 0, -1}, {"a-key.pem", -1, -1}}}
+	g1 := wMat{Files: []wFile{{"a-cert.pem", 0, -1, 0}, {"a-key.pem", -1, 0, 0}}}
+	g2 := wMat{Files: []wFile{{"z.pem", 1, 1, 0}, {"a.pem", 2, 2, 0}}}
+	bad := wMat{Files: []wFile{{"a-cert.pem", 0, -1, 0}, {"a-key.pem", -1, -1, 0}}}
 	hx.Register(&hx.Stream{
 		Name: "c11.watch_gap",
 		Corpus: []interface{}{
